@@ -30,6 +30,7 @@ GFA1 = {
     "p5": ("P\tp5\tB-,A-\t2M", ["l1"]),                    # traverses l1 as its complement
     "p6": ("P\tp6\tB+,C+\t2M", ["l9"]),                    # the link is written in the complement form of this path's direction
     "p7": ("P\tp7\tC-,B-\t2M", ["l9"]),
+    "p10": ("P\tp10\tA+,A+\t2M", ["l5"]),                  # over a self-link that joins the two ends of one segment
     "p8": ("P\tp8\tC+,C-\t2M1I", ["l12"]),                 # traverses the hairpin as written
     "p9": ("P\tp9\tC+,C-\t1D2M", ["l12"]),                 # traverses the hairpin in its complement form
     "h1": ("H\tVN:Z:1.0", []),
